@@ -13,6 +13,46 @@ CHECKS = {
          "the Go code by a differential correspondence (verdict, match count, error set) on generated schema/instance pairs; every "
          "code-vs-specification disagreement must be attributed to a listed known finding by flipping its switch in the model.",
          "Lean 4 proof (mutual structural induction over schemas) + differential correspondence with switch attribution", "DESIGN.md §6 C01"),
+ "C02": ("Kernel-checked theorems over the Swagger 2.0 schema as a closed Lean term regenerated on every run from the JSON the library embeds: "
+         "every definition and the root are in the vocabulary of the C01 theorem (decide), hence the model of the schema pass accepts a raw "
+         "document exactly when draft 4 does (full strength for the repaired configuration; for the code as it is on documents without null and "
+         "without $schema/id members), and the pipeline never loses an error of the schema pass in either continue-on-errors mode, so an accepted "
+         "document is schema-valid; decide-witness that \"responses\": {\"200\": null} is accepted (open null early exit). Tie: Go's schema pass "
+         "(verdict and error set) = the model over the same term on every generated document, the schema handed out by the library = the source of "
+         "the term, and the property itself (accepted => Lean draft-4 specification accepts) on grammar documents and arbitrarily mutated "
+         "grammar/fixture documents. Partial: theorems take the validator tree without the Swagger strictness options.",
+         "Lean 4 proof (C01 instantiated on the regenerated Swagger schema term + pipeline monotonicity) + document-level differential with switch attribution", "DESIGN.md §6 C02, §14"),
+ "C03": ("Kernel-checked equivalence, for every analysed view and regexp oracle and both settings of the path-uniqueness option: the model of the "
+         "rule loops of spec.go reports no error exactly when every documented rule holds (unique operation ids, parameter name+location unique, "
+         "path placeholders and path parameters in one-to-one correspondence and required, at most one body and never with formData, patterns "
+         "compile, required properties defined incl. through additionalProperties, no overlapping paths, paths present without empty "
+         "placeholder, references resolve), with per-rule iff lemmas and shape theorems for the path-template scanner; the inheritance rules and "
+         "arrays-declare-items enter as the emptiness of their model. Tie: rule messages reported by Go = messages of the model, as sets, on "
+         "grammar documents with 0-2 edits from a 29-entry rule-breaking catalogue, and accepted <=> model reports nothing in both modes.",
+         "Lean 4 proof (per-rule soundness and completeness of the loop models) + rule-message differential on grammar documents", "DESIGN.md §6 C03, §14"),
+ "C07": ("Kernel-checked theorems: the default and example stages add no panic of their own for every view, visited-path configuration and "
+         "oracle when the validators they call return normally (mutual induction over schemas; the nil result of a visited path is never "
+         "dereferenced), the pipeline returns normally when its stages do, a dot-free path with a fresh visited set never yields nil, and a "
+         "decide-obligation on the regenerated table of reads on possibly-nil results. Tie: arbitrarily mutated grammar and fixture documents "
+         "validated in both modes, each in its own child process so that fatal errors and hangs are observed. Partial: loads, analysis, the "
+         "$ref expander and the schema/parameter validators called for judging are outside these theorems (C06/C16); termination is observed, not proved.",
+         "Lean 4 proof (panic flag through the stage models) + regenerated nil-read table + mutation-stream correspondence in child processes", "DESIGN.md §6 C07, §14"),
+ "C09": ("Kernel-checked theorem, for every schema, path, visited set, judges and oracle: with the visited-path cut-off removed the schema "
+         "walker of the default (errors) and example (warnings) validators reports a message exactly when the recursive specification asks for "
+         "it (the judgement of the value at some location reachable through items, tuple items, additionalItems, properties, "
+         "patternProperties, additionalProperties, allOf, under that location's path); with the code's suffix heuristic in place the walker is "
+         "the same function on every schema none of whose paths triggers it; decide-witnesses of the heuristic skipping property a of "
+         "definition a and of an exact path collision. Tie: on grammar documents with good/bad values at every location kind, the locations and "
+         "wrapper messages Go reports = those of the model (as-is), and every difference from the repaired model must be attributed to the listed finding.",
+         "Lean 4 proof (mutual structural induction: traversal = recursive specification) + location-level differential", "DESIGN.md §6 C09, §14"),
+ "C10": ("Kernel-checked theorems about the model of (*SpecValidator).Validate: stop-early errors are a subset of continue-on-errors errors "
+         "for any stage results (given that of the one stage that stops by itself, proved for its loop model in any map order), the errors do not "
+         "depend on any warning, the separately returned warnings are exactly the main result's warnings, no message twice; the reported sets "
+         "of the rule loops are invariant under every permutation of the operations / definitions / path keys; decide-obligations on tables "
+         "regenerated from the source: the merge order and early-return guards are the modelled ones, every range loop that can exit early "
+         "ranges over a slice; decide-witnesses of the order dependence the three fix commits removed. Tie: every document validated 7+ times "
+         "(same object, reloaded, JSON/YAML file, reversed member order, both modes), corpus cases 24 more times.",
+         "Lean 4 proof (pipeline laws, permutation invariance) + regenerated pipeline/exit-range facts + repeated-validation correspondence", "DESIGN.md §6 C10, §14"),
  "C04": ("Kernel-checked theorem that pools handing back arbitrary used objects are invisible to every client program keeping the "
          "ownership discipline (simulation proof over free-monad programs, arbitrary chooser and stale contents), theorem that the validator "
          "tree's redeem protocol redeems every object exactly as often as it borrows it for every tree shape, slot script and panic point, and "
@@ -117,10 +157,10 @@ def main():
               "kind_free_text": "Lean 4 specification layer, implementation model, theorems (core only) and compiled line-protocol driver"},
              {"name": "go-harness", "path": "/verif/harness", "serves_properties": served,
               "kind_free_text": "in-process differential harness (build tag verif) feeding the Lean driver"},
-             {"name": "extract", "path": "/verif/extract", "serves_properties": ["C12"],
+             {"name": "extract", "path": "/verif/extract", "serves_properties": ["C01", "C02", "C04", "C05", "C07", "C10", "C11", "C12", "C13", "C14", "C15", "C16"],
               "kind_free_text": "go/ast fact extractor regenerating lean/VM/Generated on every run (tie T1)"}],
          "checks": checks,
-         "notes": "See DESIGN.md. known_findings.json lists genuine defects recorded or fixed. Properties under not_applicable are not yet served by a check in this round; none is a claim that the technique cannot apply.",
+         "notes": "See DESIGN.md (section 14: as built). known_findings.json lists genuine defects recorded or fixed; seeded/ holds confirmed property-breaking changes and which checks catch them.",
          "not_applicable": [{"property_id": p, "reason": "check not built yet in this round (design in DESIGN.md section 6); not a claim that the technique cannot apply"} for p in props if p not in CHECKS]}
     json.dump(m, open(os.path.join(V, "MANIFEST.json"), "w"), indent=1)
 main()
